@@ -13,13 +13,17 @@ MONITORS = ['c04', 'c01']
 
 
 def _restored_kill_case(prog):
-    """every reachable live configuration includes one loaded from a checkpoint: kill() / future().cancel() must end it KILLED"""
+    """every reachable live configuration includes one loaded from a checkpoint: kill() / future().cancel() must end it KILLED.
+    Returns (number of kills of restored processes, monitor failures, records); a record carries the lines for `pmodel pmr`
+    (program, history up to the checkpoint, `checkpoint`, the ops performed on the restored process) and the observation of the
+    real restored process after the restore and after each op."""
     import asyncio
+    import copy
     import harness.detloop as detloop
     import plumpy
     from plumpy.base.state_machine import StateEventHook
     from harness import pm
-    fails = []
+    fails, records = [], []
     r = pm.Run(prog)
     r.p.remove_process_listener(r.lis)
     snaps = []
@@ -28,7 +32,10 @@ def _restored_kill_case(prog):
         if r.p.has_terminated():
             return
         try:
-            snaps.append((r.p.state.value, plumpy.Bundle(r.p)))
+            # (bundle, ops completed before the callback that is running, length of the ENTERED log, is it the stepping task's)
+            # the bundle AS STORED at that moment: held in memory it shares its mutable members (a work chain's context) with the
+            # instance, which keeps running here
+            snaps.append((r.p.state.value, copy.deepcopy(plumpy.Bundle(r.p)), len(r.ops), len(r.entered), r.in_stepper))
         except Exception:  # noqa  (whether every configuration can be checkpointed is C07's business)
             pass
     r.p.add_state_event_callback(StateEventHook.ENTERED_STATE, cb)
@@ -37,60 +44,110 @@ def _restored_kill_case(prog):
             break
     r.finalize()
     r.close()
+    head = pm.prog_lines(prog)
     n = 0
-    for label, bundle in snaps:
+    for label, bundle, nops, k, in_stepper in snaps:
         for how in ('kill', 'cancel'):
             for delay in (0, 1, 2):
                 loop = detloop.DetLoop()
                 asyncio.set_event_loop(loop)
                 try:
-                    p2 = bundle.unbundle(plumpy.LoadSaveContext(loop=loop))
+                    p2 = copy.deepcopy(bundle).unbundle(plumpy.LoadSaveContext(loop=loop))
                 except Exception:  # noqa  (C08's business)
                     loop.close()
                     continue
-                p2._trace, p2._raised, p2._futs = [], [], []
-                loop.create_task(p2.step_until_terminated())
+                # the restored instance under the same observer as any other process of the process-control streams; the external
+                # futures of a work chain are the environment's (a bundle cannot carry them): the instance finds fresh pending ones
+                r2 = pm.Run(prog, process=p2, loop=loop)
+                r2.observe('none')
                 for _ in range(delay):
-                    loop.step_one()
-                if p2.has_terminated():
-                    loop.close()
-                    continue
-                raised, ret = None, None
-                q = loop.n_ready()
-                try:
-                    ret = p2.kill('restored') if how == 'kill' else p2.future().cancel()
-                except BaseException as e:  # noqa
-                    raised = e
-                if how == 'cancel':
-                    # the cancellation acts as a kill() made when the future's done-callbacks run, i.e. after the q callbacks
-                    # that were ready before it: a process that terminates by itself within those is under no obligation
-                    for _ in range(q):
-                        loop.step_one()
-                    if p2.has_terminated() and p2.state.value != 'killed':
-                        loop.close()
-                        continue
-                n += 1
-                loop.drain(500)
-                st = p2.state.value
-                if asyncio.isfuture(ret):
-                    ret = ('pending' if not ret.done() else 'cancelled' if ret.cancelled() else
-                           'exc' if ret.exception() is not None else ret.result())
-                ok = raised is None and (st == 'killed' or st == 'excepted') and (how != 'kill' or (ret is True) == (st == 'killed'))
-                if not ok:
-                    fails.append(dict(signature=f'c04-restored-{how}-lost', clause='from every reachable live configuration (here: loaded from a '
-                                      'checkpoint) kill(), or cancelling the process\'s future, terminates the process',
-                                      detail=dict(checkpoint_state=label, how=how, callbacks_before=delay, final=st, returned=str(ret),
-                                                  raised=repr(raised) if raised else None)))
-                loop.close()
-    return n, fails
+                    r2.tick()
+                tested = False
+                if not p2.has_terminated():
+                    tested = True
+                    if how == 'kill':
+                        r2.do('kill')
+                    else:
+                        r2.do('cancelfut')
+                        # the cancellation acts as a kill() made when the future's done-callbacks run, i.e. after the callbacks
+                        # that were ready before it: a process that terminates by itself within those is under no obligation
+                        for _ in range(60):
+                            if not r2.tick() or r2.ops[-1] == 'tick trykill':
+                                break
+                        if p2.has_terminated() and p2.state.value != 'killed':
+                            tested = False
+                    call = r2.calls[-1]
+                    raised, ret = call['raised'], call['obj']
+                m = 0
+                while m < 500 and r2.tick():
+                    m += 1
+                if in_stepper:
+                    records.append(dict(lines=head + r.ops[:nops] + [f"checkpoint {k} {prog.get('nfut', 0)}"] + r2.ops,
+                                        skip=len(head) + nops, obs=list(r2.obs),
+                                        meta=dict(checkpoint_state=label, checkpoint_entry=k, how=how, callbacks_before=delay)))
+                if tested:
+                    n += 1
+                    st = p2.state.value
+                    if asyncio.isfuture(ret):
+                        ret = ('pending' if not ret.done() else 'cancelled' if ret.cancelled() else
+                               'exc' if ret.exception() is not None else ret.result())
+                    ok = raised is None and (st == 'killed' or st == 'excepted') and (how != 'kill' or (ret is True) == (st == 'killed'))
+                    if not ok:
+                        fails.append(dict(signature=f'c04-restored-{how}-lost', clause='from every reachable live configuration (here: loaded from a '
+                                          'checkpoint) kill(), or cancelling the process\'s future, terminates the process',
+                                          detail=dict(checkpoint_state=label, how=how, callbacks_before=delay, final=st, returned=str(ret),
+                                                      raised=raised, ops=list(r2.ops))))
+                r2.close()
+    return n, fails, records
 
 
 def _restored_work(item):
     name, prog = item
-    n, fails = _restored_kill_case(prog)
+    n, fails, records = _restored_kill_case(prog)
     for f in fails:
         f['case'] = dict(program=name, prog=prog, schedule={}, restore_stream=True)
-    return n, fails
+    for rec in records:
+        rec['meta'].update(program=name, prog=prog)
+    return n, fails, records
+
+
+def _compare_restored(ctx, records, chunk=300):
+    """the restored-process cases through `pmodel pmr` (lean/Driver/PMRestore.lean): the observation of the restored instance
+    and the one after every op on it must be the model's"""
+    import re
+    chunks, spans, cur, curspan = [], [], [], []
+    for rec in records:
+        curspan.append((len(cur), rec))
+        cur.extend(rec['lines'])
+        if len(curspan) >= chunk:
+            chunks.append(cur); spans.append(curspan); cur, curspan = [], []
+    if curspan:
+        chunks.append(cur); spans.append(curspan)
+    outs = ctx.model.run_parallel('pmr', chunks)
+    divergences, validated, ops = [], 0, 0
+    if outs is None:
+        return divergences, validated, ops
+    for out, spanlist in zip(outs, spans):
+        for start, rec in spanlist:
+            mobs = out[start + rec['skip']:start + len(rec['lines'])]
+            validated += 1
+            ops += len(rec['obs'])
+            pairs = list(zip(rec['obs'], mobs))
+            if len(mobs) != len(rec['obs']):
+                pairs.append(('(%d observations)' % len(rec['obs']), '(%d observations)' % len(mobs)))
+            for j, (a, b) in enumerate(pairs):
+                if 'stepping=?' in a:
+                    b = re.sub(r'stepping=[01]', 'stepping=?', b)
+                if 'closed=?' in a:
+                    b = re.sub(r'closed=[01]', 'closed=?', b)
+                if a != b:
+                    meta = rec['meta']
+                    divergences.append(dict(case=dict(program=meta['program'], prog=meta['prog'], schedule={}, restore_stream=True,
+                                                      **{k: v for k, v in meta.items() if k not in ('program', 'prog')}),
+                                            op_index=j, ops=rec['lines'][len(rec['lines']) - len(rec['obs']):][:j + 1],
+                                            lines=rec['lines'], impl=a, model=b, stream='restored'))
+                    break
+    return divergences, validated, ops
 
 
 def run(ctx):
@@ -102,11 +159,20 @@ def run(ctx):
         progs.append((f'rand{i}', pm.random_prog(ctx.rng)))
     with mp.Pool(ctx.workers) as pool:
         res = pool.map(_restored_work, progs, chunksize=4)
-    for _n, fails in res:
+    records = []
+    for _n, fails, recs in res:
         out['failures'].extend(fails)
-    n = sum(n for n, _ in res)
+        records.extend(recs)
+    n = sum(x[0] for x in res)
+    divs, validated, ops = _compare_restored(ctx, records)
+    out['divergences'].extend(divs)
     out['evaluations'] += n
-    out['histograms']['restored_kill_stream'] = dict(programs=len(progs), kills_of_restored_processes=n)
+    out['traces_validated'] += validated
+    out['histograms']['restored_kill_stream'] = dict(
+        programs=len(progs), kills_of_restored_processes=n, cases_compared_with_model=validated,
+        observations_compared=ops, divergences=len(divs),
+        note='decided by the monitor and compared, after the restore and after every op on the restored process, with the '
+             'process-control model started from restoreCfgN (saveCfg c) (`pmodel pmr`, lean/Driver/PMRestore.lean)')
     return out
 
 
@@ -114,6 +180,10 @@ def replay(ctx, failure):
     if failure['case'].get('restore_stream'):
         from harness import pm
         prog, _ = pm.fix_case(failure['case'])
-        n, fails = _restored_kill_case(prog)
-        return dict(kills_of_restored_processes=n, failures=fails)
+        n, fails, records = _restored_kill_case(prog)
+        for rec in records:
+            rec['meta'].update(program=failure['case'].get('program'), prog=prog)
+        divs, validated, _ops = _compare_restored(ctx, records)
+        return dict(kills_of_restored_processes=n, failures=fails, cases_compared_with_model=validated,
+                    divergences=[dict(ops=d['lines'], op_index=d['op_index'], impl=d['impl'], model=d['model']) for d in divs[:5]])
     return pm_prop.replay_pm(ctx, failure, MONITORS)
